@@ -64,7 +64,7 @@ func (zzInner) ServeHTTP(w http.ResponseWriter, r *http.Request) (int, error) {
 		if verifrt.Bool("explicit-status") {
 			w.WriteHeader([]int{200, 204, 404, 500}[verifrt.Choose("status", 4)])
 		}
-		n := verifrt.IntRange("chunks", 0, 2+verifrt.Tier())
+		n := verifrt.IntRange("chunks", 0, 2)
 		// the body may be sent with io.Copy from a plain reader, as the file server, fastcgi and proxy
 		// do: that uses the response writer's ReadFrom if it has one
 		copies := n > 0 && verifrt.Bool("body-sent-with-io-copy")
@@ -97,7 +97,7 @@ func zzIn(b byte, alphabet string) bool {
 // log whose {status} and {size} are what the client received; out of scope, none.
 func VerifH20bOneLine() {
 	httpserver.CaseSensitivePath = true
-	pn := verifrt.IntRange("plen", 0, 2+2*verifrt.Tier())
+	pn := verifrt.IntRange("plen", 0, 2+verifrt.Tier())
 	p := "/" + verifrt.String("p", pn)
 	for i := 1; i < len(p); i++ {
 		verifrt.Assume(zzIn(p[i], "a/"))
